@@ -17,6 +17,12 @@ pub fn f32_of(s: &str) -> f32 { f32::from_bits(u32::from_str_radix(s, 16).unwrap
 pub fn hex64(x: f64) -> String { if x.is_nan() { "nan".to_string() } else { format!("{:016x}", x.to_bits()) } }
 pub fn hex32(x: f32) -> String { if x.is_nan() { "nan".to_string() } else { format!("{:08x}", x.to_bits()) } }
 pub fn b(x: bool) -> &'static str { if x { "1" } else { "0" } }
+pub fn hexs(s: &str) -> String { if s.is_empty() { "-".to_string() } else { s.bytes().map(|c| format!("{:02x}", c)).collect() } }
+pub fn unhex(s: &str) -> String {
+    if s == "-" { return String::new(); }
+    let bytes: Vec<u8> = (0..s.len() / 2).map(|i| u8::from_str_radix(&s[2 * i..2 * i + 2], 16).unwrap()).collect();
+    String::from_utf8(bytes).unwrap()
+}
 
 pub fn run_main(dispatch: fn(usize, &[&str]) -> String) {
     use std::io::{BufRead, Write};
